@@ -75,6 +75,43 @@ def main():
         # the loop must continue after the arm (no early return/break inside it)
         if re.search(r"\breturn\b|\bbreak\b", arm):
             recognised = False
+        # the `.` arm of the same loop: when is `x.name` followed by `(` a method call?  (added fact, used by
+        # ParseFull.v: `method_paren_touches` = the parenthesis must start where the method name ends, as for calls)
+        meth_recognised, meth_touch = False, False
+        md = re.search(r'Some\(token\)\s+if\s+token\.text\s*==\s*"\."\s*=>\s*\{', loop_fn)
+        if md:
+            db = md.end() - 1
+            dot_arm = norm(loop_fn[db:match_brace(loop_fn, db) + 1])
+            sym = 'let variable = parse_symbol(tokens, id_gen, diagnostics, Some("method name")); '
+            any_paren = sym + 'if peeked_symbol_is(tokens, "(") { '
+            touching = (sym + 'let paren_touches = match tokens.peek() { Some(next_token) => { next_token.text == "(" && '
+                        'variable.position.end_offset == next_token.position.start_offset } None => false, }; '
+                        'if paren_touches { ')
+            glued_name = ('if Some(token.position.end_offset) == next_token.map(|tok| tok.position.start_offset) { ')
+            call = 'let arguments = parse_call_arguments(tokens, id_gen, diagnostics);'
+            if glued_name + any_paren in dot_arm and dot_arm.count("paren_touches") == 0:
+                meth_recognised, meth_touch = True, False
+            elif glued_name + touching in dot_arm and dot_arm.count("paren_touches") == 2:
+                meth_recognised, meth_touch = True, True
+            if call not in dot_arm or "Expression_::MethodCall(Rc::new(expr), variable, arguments)" not in dot_arm \
+                    or "Expression_::DotAccess(Rc::new(expr), variable)" not in dot_arm:
+                meth_recognised = False
+        # the call arm: `(` touching the expression so far
+        call_touch = bool(re.search(r'Some\(token\)\s+if\s+token\.text\s*==\s*"\("\s*&&\s*'
+                                    r'expr\.position\.end_offset\s*==\s*token\.position\.start_offset\s*=>', loop_fn))
+        # parse_return: the returned expression must start on the line of the keyword
+        ret_fn = norm(find_fn(src, "parse_return"))
+        ret_same_line = ("if let Some(next_token) = tokens.peek() { if return_token.position.end_line_number == "
+                         "next_token.position.line_number { let returned_expr = parse_expression(tokens, id_gen, diagnostics);") in ret_fn
+        # parse_expression_no_trailing: the SECOND token decides assignments, before any keyword
+        nt_fn = norm(find_fn(src, "parse_expression_no_trailing"))
+        assign_first = nt_fn.startswith('{ if let Some((_, token)) = tokens.peek_two() { if token.text == "=" { return '
+                                        'parse_assign(tokens, id_gen, diagnostics); } if token.text == "+=" || token.text == "-=" '
+                                        '{ return parse_assign_update(tokens, id_gen, diagnostics); } }')
+        mk = re.search(r"const KEYWORDS: &\[&str\] = &\[(.*?)\];", src, re.S)
+        if not mk:
+            raise TranslatorError("KEYWORDS not found")
+        kws = re.findall(r'"(\w+)"', mk.group(1))
     except (TranslatorError, OSError) as ex:
         print("translator(parser): " + str(ex), file=sys.stderr)
         return 2
@@ -87,7 +124,14 @@ def main():
             "Definition arm_recognised : bool := %s." % ("true" if recognised else "false"),
             "Definition current_shape : arm_shape :=",
             "  {| rhs_stops_at_operators := %s; rotates_once := %s; guarded_by_flag := %s |}."
-            % ("true" if rhs_false else "false", "true" if rotates else "false", "true" if guarded else "false"), ""]
+            % ("true" if rhs_false else "false", "true" if rotates else "false", "true" if guarded else "false"), "",
+            "(* facts used by ParseFull.v *)",
+            "Definition method_arm_recognised : bool := %s." % ("true" if meth_recognised else "false"),
+            "Definition method_paren_touches : bool := %s." % ("true" if meth_touch else "false"),
+            "Definition call_paren_touches : bool := %s." % ("true" if call_touch else "false"),
+            "Definition return_needs_same_line : bool := %s." % ("true" if ret_same_line else "false"),
+            "Definition assignment_decided_by_second_token : bool := %s." % ("true" if assign_first else "false"),
+            "Definition keyword_count : nat := %d." % len(kws), ""]
     text = "\n".join(out)
     os.makedirs(a.out, exist_ok=True)
     p = os.path.join(a.out, "ParserShape.v")
